@@ -1,7 +1,7 @@
 #!/usr/bin/env python3
 """Runs the repository's own suite (guard OFF: /repo/_build never defines GSTLEARN_VERIF) and compares with
 BASELINE.json's stable tests.  usage: baseline.py [repo_dir]   exit 0 iff every stable test passed."""
-import json, re, subprocess, sys
+import json, os, re, subprocess, sys
 repo = sys.argv[1] if len(sys.argv) > 1 else "/repo"
 bd = repo + "/_build"
 r = subprocess.run(["cmake", "--build", bd, "-j16"], stdout=subprocess.PIPE, stderr=subprocess.STDOUT, text=True)
@@ -10,7 +10,9 @@ if r.returncode != 0:
 # the *_cmp tests diff the .out file written by their producer test and declare no dependency on it: run the producers first
 out = ""
 for sel in (["-E", "_cmp$"], ["-R", "_cmp$"]):
-    r = subprocess.run(["ctest", "--test-dir", bd, "-j8", "--timeout", "1800"] + sel, stdout=subprocess.PIPE, stderr=subprocess.STDOUT, text=True)
+    os.makedirs(bd + "/_nfdir", exist_ok=True)  # bench_NF writes into $HOME/gstlearn_dir unless told otherwise: keep concurrent suites apart
+    r = subprocess.run(["ctest", "--test-dir", bd, "-j8", "--timeout", "1800"] + sel, stdout=subprocess.PIPE, stderr=subprocess.STDOUT, text=True,
+                       env=dict(os.environ, PYGSTLEARN_DIR=bd + "/_nfdir/"))
     out += r.stdout
 passed = set(re.findall(r"Test\s+#\d+:\s+(\S+)\s+\.+\s+Passed", out))
 stable = [s.split("::")[0] for s in json.load(open("/root/.vp/BASELINE.json"))["stable_pass"]]
